@@ -30,7 +30,8 @@ shutil.copytree(os.path.join(src, "out"), os.path.join(wt, "out"))
 for f in os.listdir(os.path.join(wt, "out")):
     if f.endswith(".py"):
         pth = os.path.join(wt, "out", f)
-        open(pth, "w").write(open(pth).read().replace(src, wt))
+        txt = open(pth).read().replace(src, wt)
+        open(pth, "w").write(txt)
 rc, o = sh(f"/venv/bin/python out/demo{n}.py", timeout=180)
 out["demo_clean_rc"] = rc
 rc, o = sh(f"git apply out/patch{n}.diff")
